@@ -301,6 +301,7 @@ func (s stubRT) RoundTrip(r *http.Request) (*http.Response, error) {
 }
 
 func New(o Opts) *World {
+	ResetClock()
 	k := GetKeys()
 	w := &World{Opts: o, Specs: map[string]*ClientSpec{}}
 	cfg := &fosite.Config{
